@@ -65,6 +65,13 @@ def grid(tier):
                                         yield {"fam": fam, "x0": x0, "limits": lim, "tol": tol, "kw": kw, "tw": tw, "nsm": nsm,
                                                "broyden": br, "dv": (), "dt": (), "lname": lname, "v_inactive": (F["nk"] - 1,),
                                                "enable_v": (F["nk"] - 1,)}
+    # failing solves that never travel: the start is (within 1e-12 of, or exactly) the least-squares point of an inconsistent
+    # system, so the solver's last iterate is next to the iteration-0 knobs without being equal; also with a huge knob weight
+    for x0, kw in (([2.0 + 3e-13], None), ([2.0 - 1e-13], None), ([2.0], None), ([2.0000004], (1e6,)), ([2.0 + 3e-13], (1e-3,))):
+        for nsm in (1, 20):
+            for br in (False, True):
+                yield {"fam": "same_twice", "x0": x0, "limits": None, "tol": 1e-9, "kw": kw, "tw": None, "nsm": nsm, "broyden": br,
+                       "dv": (), "dt": (), "lname": "none"}
     # limits that stop every knob just short of the solution while a finite-difference probe lands inside the tolerance
     for fam in ("lin1", "ident2", "ident3"):
         F = O.FAMILIES[fam]
